@@ -385,7 +385,9 @@ func c12OwnerRefFilter(r *Run, e *Effect, oldDSKey string, record bool) bool {
 								return false
 							}
 							s, okc := constString(l.Index)
-							return okc && s == oldDSKey
+							// the declaration is read from the ExtendedDaemonSet (the live object), not
+							// from a copy of its annotations kept on another object
+							return okc && s == oldDSKey && annotationsOwnedBy(l.X, "ExtendedDaemonSet")
 						})
 					})
 				})
@@ -749,4 +751,69 @@ func foundElementSatisfies(p *Prog, fn *ssa.Function, v ssa.Value, want func(fac
 		}
 	}
 	return true
+}
+
+// annotationsOwnedBy: the map value m is the annotations of an object whose type is the named API
+// type (GetAnnotations() on it, or its ObjectMeta.Annotations field), looking through local cells
+// and phis.
+func annotationsOwnedBy(m ssa.Value, typ string) bool {
+	seen := map[ssa.Value]bool{}
+	var rec func(v ssa.Value, d int) bool
+	isTyp := func(t types.Type) bool {
+		return isPtrToNamed(t, pkgAPI, typ) || typeName(t) == pkgAPI+"."+typ
+	}
+	rec = func(v ssa.Value, d int) bool {
+		if v == nil || seen[v] || d > 8 {
+			return false
+		}
+		seen[v] = true
+		switch x := v.(type) {
+		case *ssa.Call:
+			if x.Call.IsInvoke() {
+				return x.Call.Method.Name() == "GetAnnotations" && isTyp(x.Call.Value.Type())
+			}
+			if cal := staticCallee(&x.Call); cal != nil && cal.Name() == "GetAnnotations" && len(x.Call.Args) > 0 {
+				recv := x.Call.Args[0]
+				if isTyp(recv.Type()) {
+					return true
+				}
+				root, _ := accessPath(recv)
+				return root != nil && isTyp(root.Type())
+			}
+		case *ssa.UnOp:
+			if x.Op != token.MUL {
+				return false
+			}
+			if fa, ok := x.X.(*ssa.FieldAddr); ok && fieldName(fa) == "Annotations" {
+				root, _ := accessPath(x)
+				return root != nil && isTyp(root.Type())
+			}
+			if a, ok := x.X.(*ssa.Alloc); ok {
+				okAll, n := true, 0
+				for _, rr := range refs(a) {
+					if st, ok := rr.(*ssa.Store); ok && st.Addr == ssa.Value(a) {
+						n++
+						if !rec(st.Val, d+1) {
+							okAll = false
+						}
+					}
+				}
+				return okAll && n > 0
+			}
+		case *ssa.Phi:
+			for _, e := range x.Edges {
+				if !rec(e, d+1) {
+					return false
+				}
+			}
+			return len(x.Edges) > 0
+		case *ssa.Field:
+			if fieldName(x) == "Annotations" {
+				root, _ := accessPath(x)
+				return root != nil && isTyp(root.Type())
+			}
+		}
+		return false
+	}
+	return rec(m, 0)
 }
